@@ -345,4 +345,10 @@ Example k_jitintersect_runs :
   = Return (inter_result [(5, 10, (0%nat, 0%nat)); (20, 25, (1%nat, 0%nat))]).
 Proof. vm_compute. reflexivity. Qed.
 
+(* the interval arrays are those of the model [k_inter] *)
+Lemma col_s_inter : forall A B, col_s (k_inter_meta A B) = starts (k_inter A B).
+Proof. intros. unfold col_s, starts, k_inter. rewrite map_map. reflexivity. Qed.
+Lemma col_e_inter : forall A B, col_e (k_inter_meta A B) = ends (k_inter A B).
+Proof. intros. unfold col_e, ends, k_inter. rewrite map_map. reflexivity. Qed.
+
 Print Assumptions k_jitintersect_computes_model.
